@@ -224,6 +224,30 @@ def oracle_a(res, i, pid, before, after, kind):
             res.failures.append(('C09:foreign-file-written', 'file %s %s by a step executed under identity %s' % (bn, verb, pid), i))
 
 
+def oracle_unreadable(res, i, snap):
+    """a store file the library's own reader cannot read (it raised): the collector cannot read it either"""
+    for bn, cls, msg in mpsim.unreadable_files(snap):
+        res.failures.append(('C09:store-file-unreadable:' + cls, 'the store reader raised %s on %s: %s' % (cls, bn, msg), i))
+
+
+def oracle_raw(res, i, kind, pid, before, after, exempt=()):
+    """"the previous identity's files are never written again by the new process", on the BYTES: a step executed under
+    identity `pid` must leave every file not named `…_<pid>.db` byte-identical (same size, same content, unused tail
+    included); an identity change by itself, a new worker starting and mark_process_dead (for the files it leaves)
+    change no byte at all.  `exempt`: identities of a worker process that EXITS in this step (closing is its own act)."""
+    for bn, raw in before.items():
+        if bn not in after or after[bn] == raw:
+            continue
+        if kind == 'op' and bn.endswith('_%s.db' % pid):
+            continue
+        if any(bn.endswith('_%s.db' % q) for q in exempt):
+            continue
+        how = 'size %d -> %d' % (len(raw), len(after[bn])) if len(raw) != len(after[bn]) else 'same size %d, content differs' % len(raw)
+        who = {'op': 'a step executed under identity %s' % pid, 'pid': 'the identity change itself',
+               'W': 'the start of a new worker', 'D': 'mark_process_dead(%s)' % pid}[kind]
+        res.failures.append(('C09:foreign-file-written', 'file %s rewritten (%s) by %s' % (bn, how, who), i))
+
+
 def oracle_bc(res, i, oracle, collected):
     canon, dups = mpsim.canon_fams(collected)
     for d in dups:
@@ -272,6 +296,7 @@ def run_history(scen, want_sample=False):
         last_pid = scen['pid0']
         ngen = 1
         after = mpsim.snapshot(sim.dir)
+        raw_after = mpsim.raw_snapshot(sim.dir)
         pids_seen = {scen['pid0']}
         canon = {}
 
@@ -293,17 +318,23 @@ def run_history(scen, want_sample=False):
             if op not in ('W', 'D') and w is None:
                 # the acting worker was marked dead and the script has no W here: a new worker under the last identity
                 before = after
+                raw_before = raw_after
                 spawn(last_pid)
                 after = mpsim.snapshot(sim.dir)
+                raw_after = mpsim.raw_snapshot(sim.dir)
                 oracle_a(res, i, last_pid, before, after, 'W')
+                oracle_raw(res, i, 'W', last_pid, raw_before, raw_after)
                 res.count('W:implicit')
             before = after
+            raw_before = raw_after
+            exiting = ()
             nlog = len(world.ops)
             pid = w.cell[0] if w is not None else last_pid
             raised = None
             kind = 'op'
             if op == 'W':
                 kind = 'W'
+                exiting = tuple(w.ids) if w is not None else ()
                 spawn(st[1])
             elif op == 'D':
                 kind = 'D'
@@ -311,6 +342,7 @@ def run_history(scen, want_sample=False):
                 mine = w is not None and pid in w.ids
                 res.count('D:' + ('acting-worker' if mine else ('earlier-pid' if pid in pids_seen else 'never-used-pid')))
                 if mine:
+                    exiting = tuple(w.ids)
                     mpsim.close_class_files(w.cls)      # that process is dead
                     w = None
                 try:
@@ -367,7 +399,10 @@ def run_history(scen, want_sample=False):
                 if len(world.ops) > nlog:
                     oracle.touched(pid)
             after = mpsim.snapshot(sim.dir)
+            raw_after = mpsim.raw_snapshot(sim.dir)
+            oracle_unreadable(res, i, after)
             oracle_a(res, i, pid, before, after, kind)
+            oracle_raw(res, i, kind, pid, raw_before, raw_after, exiting)
             try:
                 collected = sim.collect()
             except Exception as e:  # noqa
@@ -684,8 +719,10 @@ def run_fork_history(scen):
         me = os.getpid()
         oracle = Oracle(pool)
         after = mpsim.snapshot(sim.dir)
+        raw_after = mpsim.raw_snapshot(sim.dir)
         for k, steps in enumerate(scen['phases']):
             before = after
+            raw_before = raw_after
             if k % 2 == 0:
                 actor = me
                 try:
@@ -717,7 +754,12 @@ def run_fork_history(scen):
                 # what the child created lives on in the files but not in the parent's memory
                 oracle.children = saved
             after = mpsim.snapshot(sim.dir)
+            raw_after = mpsim.raw_snapshot(sim.dir)
+            oracle_unreadable(res, k, after)
             oracle_a(res, k, actor, before, after, 'op')
+            # a forked child's exit closes the files it inherited; its own act ends with it — but it must not alter the
+            # PARENT's files: bytes of every file not named …_<actor>.db stay as they were
+            oracle_raw(res, k, 'op', actor, raw_before, raw_after)
             try:
                 collected = sim.collect()
             except Exception as e:  # noqa
